@@ -881,4 +881,43 @@ theorem toProto_injective (t t' : Ty) (h : normTy t = t) (h' : normTy t' = t')
 example : fromProto (toProto (.seq (.tensor 1 (some [.const 0, .sym "N", .unk, .sym ""]))))
     = .seq (.tensor 1 (some [.const 0, .sym "N", .unk, .unk])) := by decide
 
+/-! ### What a supplement may do to the types -/
+
+/-- **a supplement that only refines**: if the operator's own rules, applied to any standard answer,
+    return output by output a type that refines it (`refinesAll`), then whatever the supplemented
+    constructor returns refines what the standard constructor returns for the same call - it may say
+    more than ONNX, never less and nothing else. (`_partial`: the hypothesis is a property of the
+    rules; it holds for Compress / Loop as far as observed on every run by the model-free oracle, and
+    fails for the ml operators - `supplement_replacing_counterexample`.) -/
+theorem supplemented_refines_partial (Infer : InferFn)
+    (own : Call → List (String × Option Ty) → Except Err (List (String × Option Ty))) (c : Call)
+    (hown : ∀ std r, own c std = .ok r → refinesAll r std = true)
+    (r : List (String × Option Ty)) (h : constructSupplemented Infer own c = .ok r) :
+    ∃ std, construct Infer c = .ok std ∧ refinesAll r std = true := by
+  simp only [constructSupplemented] at h
+  split at h
+  · cases h
+  · rename_i std hstd
+    exact ⟨std, hstd, hown std r h⟩
+
+/-- rules that *replace* the judgement (the ml operators: no type at all when the input's rank is
+    unknown) do not refine: the standard routine types both outputs, the replacement none -/
+theorem supplement_replacing_counterexample :
+    constructSupplemented topkInfer (fun _ std => .ok (std.map (fun p => (p.1, none)))) topkCall
+      = .ok [("Values", none), ("Indices", none)]
+    ∧ refinesAll [("Values", none), ("Indices", none)]
+        [("Values", some (f32 [.const 2, .unk])), ("Indices", some (.tensor 7 (some [.const 2, .unk])))] = false := by
+  decide
+
+/-- `stripUnk_keeps` needs its hypothesis: a dimension the CALLER named `unk__0` is stripped with the
+    invented ones (known finding `types-differ:user-dim-named-unk__`) -/
+theorem stripUnk_user_named_unk_counterexample :
+    stripUnk (.tensor 1 (some [.sym "unk__0", .const 2])) = .tensor 1 (some [.unk, .const 2])
+    ∧ stripUnk (.tensor 1 (some [.sym "unk__0", .const 2])) ≠ .tensor 1 (some [.sym "unk__0", .const 2]) := by
+  decide
+
+example : refinesAll [("o", some (.tensor 1 (some [.const 2, .unk])))] [("o", some (.tensor 1 none))] = true := by decide
+example : refinesAll [("o", some (.tensor 1 none))] [("o", some (.tensor 1 (some [.unk])))] = false := by decide
+example : refinesAll [("o", some (.tensor 7 none))] [("o", some (.tensor 1 none))] = false := by decide
+
 end C05
